@@ -211,7 +211,7 @@ func runC05(w *World, r *Report, tier string) {
 		if a.Kind != "load" {
 			continue
 		}
-		nLoads++
+		nLoads += len(w.owners(a.Fn)) // a helper shared by two senders stands for both of their loads
 		if v, ok := a.Instr.(ssa.Value); ok {
 			derefCheck(a.Fn, v, "from "+w.funcKey(a.Fn), 0)
 		}
